@@ -75,6 +75,14 @@ def ops_for(fnlabel):
     }
     if fnlabel in m:
         return m[fnlabel]
+    mm = re.match(r'^(info|dom)::(\w+)::(\w+)', fnlabel)
+    if mm:
+        layer, ty, fn = mm.groups()
+        k = {'XmlText': 'text', 'XmlComment': 'comment', 'XmlCData': 'cdata', 'XmlCDataSection': 'cdata'}.get(ty)
+        if k and layer == 'info' and fn in ('len', 'substring', 'delete', 'insert'):
+            return [f'info.{k}.{fn}']
+        if k and layer == 'dom':
+            return [f'dom.{k}.{fn}']
     kinds = {'XmlText': 'text', 'XmlComment': 'comment', 'XmlCData': 'cdata', 'XmlCDataSection': 'cdata'}
     mm = re.match(r'^impl (?:(\w+) for )?(\w+)::(\w+)$', fnlabel)
     if mm:
